@@ -46,18 +46,22 @@ class StrIterProto:
         ctx.set_field(self.obj, "consumed", VStr(c))
         return part
 
+    def shape(self):
+        return VStr(self.it.ctx.fresh("String", "part_after_loop"))
+
     def done(self):
         pass
 
 
 def install(engine):
+    engine.ghost_classes.update({"StrIter", "FileLines", "PPList", "PPChain"})
     engine.intrinsics["for:StrIter"] = lambda it, obj: StrIterProto(it, obj)
     engine.used("template generator: an arbitrary finite sequence of arbitrary strings (any chunking, empty chunks included)")
 
     def nl_search_rel(it, n):
         """spec fn: match_obj is what newline_pattern.search(part, pos) returns (assumed contract, relational form)"""
         m, rx, part, pos = [it.eval(a) for a in n.args]
-        alts = pyre._literal_alternation(rx.obj[1], 0)
+        alts = pyre._literal_alternation(rx.obj[1], rx.obj[2])
         ln = app("str.len", part.t)
         if it.ctx.implied(f"(and (<= 0 {pos.t}) (<= {pos.t} {ln}))"):
             p = pos.t
@@ -189,6 +193,7 @@ LIMIT = Contract(
          "ite(line_and_lineend[0] != '', 0, ite(old(self._empty_line_count) + 1 > self._max_empty_lines, old(run), old(run) + 1))"
          " == min(self._empty_line_count, self._max_empty_lines)"),
     ],
+    modifies=["self._empty_line_count"],
     theory="string",
 )
 
@@ -202,7 +207,7 @@ FILTER_AND_WRITE = Contract(
     raises=[Raises("ValueError", "True", must=False, ensures=[("only-if-a-processor-returned-None", "cur_none")])],
     loops={0: Loop(invariant=["not cur_none", "line_and_lineend == (cur0, cur1)",
                               "output_file.buf == old(output_file.buf)"])},
-    bindings={},
+    modifies=["output_file.buf"],
     theory="string",
 )
 
